@@ -39,9 +39,18 @@ func c33PredictFail(w *c32World, r *c32Req) bool {
 // written a disconnect and returned an error; otherwise it must not disconnect and must consume
 // the whole script.
 func Verif_C33_Tries() {
+	c33Tries(4, 3, []int{c32A(c32KNone, 0), c32A(c32KPassword, 0), c32A(c32KKbdInt, 0), c32A(c32KBogus, 0), c32A(c32KQuery, c32SGood)})
+}
+
+// Verif_C33_Tries6: MaxAuthTries in [-2, 5], 6 requests over {none, password, publickey query}.
+func Verif_C33_Tries6() {
+	c33Tries(6, 5, []int{c32A(c32KNone, 0), c32A(c32KPassword, 0), c32A(c32KQuery, c32SGood)})
+}
+
+func c33Tries(k int, mMax int, alphabet []int) {
 	m := verifrt.Int()
 	verifrt.Assume(m >= -2)
-	verifrt.Assume(m <= 3)
+	verifrt.Assume(m <= mMax)
 	fails, nones, accounted := 0, 0, 0
 	account := func(w *c32World) {
 		for accounted < len(w.reqs) {
@@ -57,8 +66,8 @@ func Verif_C33_Tries() {
 			}
 		}
 	}
-	p := c32Params{k: 4, keys: 1, mask: 7, maxTries: m, sameUser: true,
-		alphabet:   []int{c32A(c32KNone, 0), c32A(c32KPassword, 0), c32A(c32KKbdInt, 0), c32A(c32KBogus, 0), c32A(c32KQuery, c32SGood)},
+	p := c32Params{k: k, keys: 1, mask: 7, maxTries: m, sameUser: true,
+		alphabet:   alphabet,
 		verdicts:   []int{c32VReject},
 		pkVerdicts: []int{c32VAccept, c32VReject},
 	}
@@ -75,7 +84,7 @@ func Verif_C33_Tries() {
 	} else {
 		verifrt.Reach("no-limit")
 		verifrt.Assert(w.discs == 0, "no disconnect below the limit")
-		verifrt.Assert(w.eof && len(w.reqs) == 4, "below the limit every scripted request is read")
+		verifrt.Assert(w.eof && len(w.reqs) == k, "below the limit every scripted request is read")
 	}
 	if m < 0 {
 		verifrt.Reach("unlimited")
